@@ -282,8 +282,11 @@ impl ProgressBar {
 
     /// Update the `ProgressBar`'s inner [`ProgressState`]
     pub fn update(&self, f: impl FnOnce(&mut ProgressState)) {
-        self.state()
-            .update(Instant::now(), f, self.ticker.lock().unwrap().is_none());
+        // Look at the ticker before locking the state, like `tick_inner()` does. Taking the ticker
+        // lock while holding the state lock can deadlock with `stop_and_replace_ticker()`, which
+        // holds the ticker lock while it joins the ticker thread, which in turn needs the state.
+        let tick = self.ticker.lock().unwrap().is_none();
+        self.state().update(Instant::now(), f, tick);
     }
 
     /// Sets the position of the progress bar
